@@ -36,7 +36,7 @@ func run(cfg lib.Cfg) error {
 	if cfg.Thorough() {
 		n = 4000
 	}
-	opts := rows.GenOpts{Filters: true, LogAddrP: 55, OddP: 8, RefMixP: 14}
+	opts := rows.GenOpts{Filters: true, LogAddrP: 55, OddP: 8, RefMixP: 14, RowMixP: 16}
 	for i := 0; i < n; i++ {
 		c := rows.GenCase(r, opts, i)
 		if c.Decl.Mode() == "log" && r.Chance(1, 2) {
